@@ -9,16 +9,21 @@ Statements and closing proofs; thin corollaries of the step bundles of `Properti
 theorems (`C18List`), plus the history-level ledger lemma `ListHistory.run_ledger`.
 
 What the model can carry: (a) no operation dereferences a `NULL`/dangling node pointer, walks past
-the end of the chain or releases a block that is not live (`Mem.fault` stays what it was), (b) `live`
-moves exactly with the number of blocks the lists own, and `new … any history … destroy` gives every
-block back, for every refusal schedule, (c) the callback variants hand each held element to the
+the end of the chain or releases a block that is not live (`Mem.fault` stays what it was) — for
+histories of list operations and for whole **programs** over each of the five iterators, (b) per
+allocator triple (configured / C library; the two lists may sit on different ones) the live-block
+count `liveT t` moves exactly with the number of blocks the lists hold through `t` — in particular
+nothing is ever released through a triple that did not hand it out, as far as counting can tell —
+and `new … any history … destroy` gives every block back to its own allocator, for every refusal
+schedule, (c) the callback variants hand each held element to the
 callback exactly once, in list order.  Use-after-free and raw `next`/`prev` link corruption cannot
 be expressed in the sequence model; they are observed by ASan and the heap walker on every sampled
 history (stated in the evidence as runtime checks, not proofs).
 
 Quantifiers: all pairs of list states satisfying the invariant with their node blocks live
 (`PairOk`), all operations of `Spec.LSeq.Op` with all arguments (indices over the whole `Nat`),
-all histories, all allocator states and refusal schedules. -/
+all histories (with `splice` only between lists on the same triple, `Compat`), all allocator states
+and refusal schedules. -/
 namespace CC.Properties.C06List
 open CC CC.Chain CC.ListHistory
 open CC.Spec
@@ -26,132 +31,252 @@ open CC.Spec.LSeq (Op Out Params)
 
 /-! ## (a) no fault -/
 
-theorem dlist_step_nofault (P : Params) (s : Chain × Chain) (op : Op) (m : Mem) (h : PairOk s m) :
-    (DList.step P s op m).2.2.fault = m.fault := (C04.dlist_step_refines P s op m h).2.2.2.1
+theorem dlist_step_nofault (P : Params) (s : Chain × Chain) (op : Op) (m : Mem) (h : PairOk s m)
+    (hc : SpliceOk s.1.triple s.2.triple op) :
+    (DList.step P s op m).2.2.fault = m.fault := (C04.dlist_step_refines P s op m h hc).2.2.2.2.1
 
-theorem slist_step_nofault (P : Params) (s : Chain × Chain) (op : Op) (m : Mem) (h : PairOk s m) :
-    (SList.step P s op m).2.2.fault = m.fault := (C04.slist_step_refines P s op m h).2.2.2.1
+theorem slist_step_nofault (P : Params) (s : Chain × Chain) (op : Op) (m : Mem) (h : PairOk s m)
+    (hc : SpliceOk s.1.triple s.2.triple op) :
+    (SList.step P s op m).2.2.fault = m.fault := (C04.slist_step_refines P s op m h hc).2.2.2.2.1
 
 /-- no operation of any history faults, under any refusal schedule -/
-theorem dlist_history_nofault (P : Params) (ops : List Op) (s : Chain × Chain) (m : Mem) (h : PairOk s m) :
+theorem dlist_history_nofault (P : Params) (ops : List Op) (s : Chain × Chain) (m : Mem) (h : PairOk s m) (hc : Compat s ops) :
     (DList.run P s ops m).2.2.fault = m.fault ∧ PairOk (DList.run P s ops m).2.1 (DList.run P s ops m).2.2 :=
-  ⟨(C04.dlist_history_refines_skipping P ops s m h).2.2.2.1, (C04.dlist_history_refines_skipping P ops s m h).2.2.1⟩
+  ⟨(C04.dlist_history_refines_skipping P ops s m h hc).2.2.2, (C04.dlist_history_refines_skipping P ops s m h hc).2.2.1⟩
 
-theorem slist_history_nofault (P : Params) (ops : List Op) (s : Chain × Chain) (m : Mem) (h : PairOk s m) :
+theorem slist_history_nofault (P : Params) (ops : List Op) (s : Chain × Chain) (m : Mem) (h : PairOk s m) (hc : Compat s ops) :
     (SList.run P s ops m).2.2.fault = m.fault ∧ PairOk (SList.run P s ops m).2.1 (SList.run P s ops m).2.2 :=
-  ⟨(C04.slist_history_refines_skipping P ops s m h).2.2.2.1, (C04.slist_history_refines_skipping P ops s m h).2.2.1⟩
+  ⟨(C04.slist_history_refines_skipping P ops s m h hc).2.2.2, (C04.slist_history_refines_skipping P ops s m h hc).2.2.1⟩
 
-/-- iterator calls within the documented contract do not fault (doubly linked, ascending; the other
-iterators: same proof from their simulation theorems in `C07List`) -/
-theorem dlist_iter_nofault (xs : List Nat) (c : LSeq.Cursor) (it : DList.Iter) (m : Mem) (h : DList.ItRel xs c it)
-    (hl : xs.length ≤ m.live) :
-    (DList.iterNext (ofList xs) it m).2.2.2.fault = m.fault ∧
-    (DList.iterRemove (ofList xs) it m).2.2.2.2.fault = m.fault ∧
-    (∀ x, (DList.iterReplace (ofList xs) it x m).2.2.2.fault = m.fault) ∧
-    (∀ x k, c.cur = some k → c.pos = k + 1 → (DList.iterAdd (ofList xs) it x m).2.2.2.fault = m.fault) := by
-  obtain ⟨hn, hr, hp, ha, _⟩ := C07List.dlist_iter_simulation xs c it m h
-  refine ⟨?_, ?_, ?_, ?_⟩
-  · obtain ⟨it', e, _⟩ := hn; rw [e]
-  · obtain ⟨it', e, _⟩ := hr
-    rw [e]
-    by_cases hs : (LSeq.itRemove xs c).1 = .ok
-    · simp only [hs, if_true]
-      have hpos : 0 < xs.length := by
-        unfold LSeq.itRemove at hs
-        cases hc : c.cur with
-        | none => simp [hc] at hs
-        | some k => have := h.cur k hc; have := h.le; omega
-      exact (Mem.free_live m (by omega)).2.1
-    · simp only [hs, if_false]
-  · intro x; rw [(hp x).1]
-  · intro x k hc hpos
-    obtain ⟨it', e, _⟩ := ha x k hc hpos
-    rw [e]
-    by_cases hal : m.alloc.1 = true
-    · simp only [hal, if_true]; exact (Mem.alloc_fst_true m hal).2.1
-    · have hal' : m.alloc.1 = false := by simpa using hal
-      simp only [hal', Bool.false_eq_true, if_false]; exact (Mem.alloc_fst_false m hal').2.1
+/-- **iterator programs do not fault and keep the ledger exact** — ascending iterator of `cc_list.c`:
+any program of `next/remove/replace/add/index` calls within the documented contract, under any
+refusal schedule: `fault` unchanged, the other allocator untouched, `liveT` of the list's triple moved
+exactly with the length, and the list is left in a state satisfying the invariant -/
+theorem dlist_iter_program_safe (t : Triple) (l : Chain) (h : l.Inv) (ht : l.triple = t) (m : Mem) (ops : List IOp)
+    (hlive : l.abs.length ≤ m.liveT t)
+    (hl : (LSeqP.run false false (l.abs, LSeq.itNew) ops ((DList.iterRun false (l, DList.iterInit l, m) ops).1.map stFlag)).2.2 = true) :
+    (DList.iterRun false (l, DList.iterInit l, m) ops).2.2.2.fault = m.fault ∧
+    Mem.Frame t m (DList.iterRun false (l, DList.iterInit l, m) ops).2.2.2 ∧
+    (DList.iterRun false (l, DList.iterInit l, m) ops).2.2.2.liveT t + l.abs.length =
+      m.liveT t + (DList.iterRun false (l, DList.iterInit l, m) ops).2.1.abs.length ∧
+    (DList.iterRun false (l, DList.iterInit l, m) ops).2.1.Inv := by
+  obtain ⟨_, hs, _, hm⟩ := C07List.dlist_iter_program t l h ht m ops hlive hl
+  rw [hs]
+  exact ⟨hm.fault, hm.frame, by rw [ofList_abs]; exact hm.live, ofList_inv _⟩
 
-/-- builders and the array-based sorts do not fault either -/
+/-- descending iterator of `cc_list.c` -/
+theorem dlist_diter_program_safe (t : Triple) (l : Chain) (h : l.Inv) (ht : l.triple = t) (m : Mem) (ops : List IOp)
+    (hlive : l.abs.length ≤ m.liveT t)
+    (hl : (LSeqP.run false true (l.abs, LSeq.ditNew l.abs) ops ((DList.iterRun true (l, DList.diterInit l, m) ops).1.map stFlag)).2.2 = true) :
+    (DList.iterRun true (l, DList.diterInit l, m) ops).2.2.2.fault = m.fault ∧
+    Mem.Frame t m (DList.iterRun true (l, DList.diterInit l, m) ops).2.2.2 ∧
+    (DList.iterRun true (l, DList.diterInit l, m) ops).2.2.2.liveT t + l.abs.length =
+      m.liveT t + (DList.iterRun true (l, DList.diterInit l, m) ops).2.1.abs.length ∧
+    (DList.iterRun true (l, DList.diterInit l, m) ops).2.1.Inv := by
+  obtain ⟨_, hs, _, hm⟩ := C07List.dlist_diter_program t l h ht m ops hlive hl
+  rw [hs]
+  exact ⟨hm.fault, hm.frame, by rw [ofList_abs]; exact hm.live, ofList_inv _⟩
+
+/-- iterator of `cc_slist.c` -/
+theorem slist_iter_program_safe (t : Triple) (l : Chain) (h : l.Inv) (ht : l.triple = t) (m : Mem) (ops : List IOp)
+    (hlive : l.abs.length ≤ m.liveT t)
+    (hl : (LSeqP.run true false (l.abs, LSeq.itNew) ops ((SList.iterRun (l, SList.iterInit l, m) ops).1.map stFlag)).2.2 = true) :
+    (SList.iterRun (l, SList.iterInit l, m) ops).2.2.2.fault = m.fault ∧
+    Mem.Frame t m (SList.iterRun (l, SList.iterInit l, m) ops).2.2.2 ∧
+    (SList.iterRun (l, SList.iterInit l, m) ops).2.2.2.liveT t + l.abs.length =
+      m.liveT t + (SList.iterRun (l, SList.iterInit l, m) ops).2.1.abs.length ∧
+    (SList.iterRun (l, SList.iterInit l, m) ops).2.1.Inv := by
+  obtain ⟨_, hs, _, hm⟩ := C07List.slist_iter_program t l h ht m ops hlive hl
+  rw [hs]
+  exact ⟨hm.fault, hm.frame, by rw [ofList_abs]; exact hm.live, ofList_inv _⟩
+
+/-- zip iterator of `cc_list.c` over two lists on any two triples (`zip_add` obtains one node from
+each list's own allocator and gives the first back when the second is refused; `zip_remove` releases
+each node through its own list's allocator): no fault, per-triple ledger exact, both invariants -/
+theorem dlist_zip_program_safe (l1 l2 : Chain) (h1 : l1.Inv) (h2 : l2.Inv) (m : Mem) (ops : List ZOp)
+    (hlive : ∀ t', ownedBy l1.triple l2.triple l1.abs l2.abs t' ≤ m.liveT t')
+    (hl : (LSeqP.zrun false (l1.abs, l2.abs, LSeq.itNew) ops ((DList.zipRun (l1, l2, DList.zipInit l1 l2, m) ops).1.map zFlag)).2.2 = true) :
+    (DList.zipRun (l1, l2, DList.zipInit l1 l2, m) ops).2.2.2.2.fault = m.fault ∧
+    (∀ t', (DList.zipRun (l1, l2, DList.zipInit l1 l2, m) ops).2.2.2.2.liveT t' + ownedBy l1.triple l2.triple l1.abs l2.abs t' =
+      m.liveT t' + ownedBy l1.triple l2.triple (DList.zipRun (l1, l2, DList.zipInit l1 l2, m) ops).2.1.abs
+        (DList.zipRun (l1, l2, DList.zipInit l1 l2, m) ops).2.2.1.abs t') ∧
+    (DList.zipRun (l1, l2, DList.zipInit l1 l2, m) ops).2.1.Inv ∧ (DList.zipRun (l1, l2, DList.zipInit l1 l2, m) ops).2.2.1.Inv := by
+  obtain ⟨_, hs1, hs2, _, hm⟩ := C07List.dlist_zip_program l1 l2 h1 h2 m ops hlive hl
+  rw [hs1, hs2]
+  exact ⟨hm.fault, by simpa using hm.live, ofList_inv _, ofList_inv _⟩
+
+/-- zip iterator of `cc_slist.c` -/
+theorem slist_zip_program_safe (l1 l2 : Chain) (h1 : l1.Inv) (h2 : l2.Inv) (m : Mem) (ops : List ZOp)
+    (hlive : ∀ t', ownedBy l1.triple l2.triple l1.abs l2.abs t' ≤ m.liveT t')
+    (hl : (LSeqP.zrun true (l1.abs, l2.abs, LSeq.itNew) ops ((SList.zipRun (l1, l2, SList.zipInit l1 l2, m) ops).1.map zFlag)).2.2 = true) :
+    (SList.zipRun (l1, l2, SList.zipInit l1 l2, m) ops).2.2.2.2.fault = m.fault ∧
+    (∀ t', (SList.zipRun (l1, l2, SList.zipInit l1 l2, m) ops).2.2.2.2.liveT t' + ownedBy l1.triple l2.triple l1.abs l2.abs t' =
+      m.liveT t' + ownedBy l1.triple l2.triple (SList.zipRun (l1, l2, SList.zipInit l1 l2, m) ops).2.1.abs
+        (SList.zipRun (l1, l2, SList.zipInit l1 l2, m) ops).2.2.1.abs t') ∧
+    (SList.zipRun (l1, l2, SList.zipInit l1 l2, m) ops).2.1.Inv ∧ (SList.zipRun (l1, l2, SList.zipInit l1 l2, m) ops).2.2.1.Inv := by
+  obtain ⟨_, hs1, hs2, _, hm⟩ := C07List.slist_zip_program l1 l2 h1 h2 m ops hlive hl
+  rw [hs1, hs2]
+  exact ⟨hm.fault, by simpa using hm.live, ofList_inv _, ofList_inv _⟩
+
+/-- builders, the array-based sorts and the in-place merge sort do not fault either -/
 theorem derived_and_sort_nofault (add : List Nat) (l : Chain) (h : l.Inv) (m : Mem)
-    {cmp : Nat → Nat → Int} {sortFn : List Nat → List Nat} (hq : C18List.SortFnSpec cmp sortFn) :
-    (DList.builderResult add m).2.2.fault = m.fault ∧
-    (DList.sort sortFn l m).2.2.fault = m.fault ∧ (SList.sort sortFn l m).2.2.fault = m.fault :=
-  ⟨(C15List.builder_result add m).1, (C18List.dlist_sort_correct hq l m h).2.1, (C18List.slist_sort_correct hq l m h).2.1⟩
+    {cmp : Nat → Nat → Int} {sortFn : List Nat → List Nat} (hq : C18List.SortFnSpec cmp sortFn) (hc : LSeq.CmpPreorder cmp) :
+    (DList.builderResult l.triple add m).2.2.fault = m.fault ∧
+    (DList.sort sortFn l m).2.2.fault = m.fault ∧ (SList.sort sortFn l m).2.2.fault = m.fault ∧
+    (DList.sortInPlaceC cmp l m).2 = m :=
+  ⟨(C15List.builder_result l.triple add m).1, (C18List.dlist_sort_correct hq l m h).2.2.1, (C18List.slist_sort_correct hq l m h).2.2.1,
+   (C18List.sort_in_place_code_correct hc l h m).1⟩
 
 /-! ## (b) ledger -/
 
-/-- per step: `live` moves exactly with the number of node blocks the two lists own -/
-theorem dlist_step_ledger (P : Params) (s : Chain × Chain) (op : Op) (m : Mem) (h : PairOk s m) :
-    (DList.step P s op m).2.2.live + (s.1.abs.length + s.2.abs.length) =
-      m.live + ((DList.step P s op m).2.1.1.abs.length + (DList.step P s op m).2.1.2.abs.length) :=
-  (C04.dlist_step_refines P s op m h).2.2.2.2.2.1
+/-- per step and per allocator triple: `liveT t` moves exactly with the number of node blocks the two
+lists hold through `t` -/
+theorem dlist_step_ledger (P : Params) (s : Chain × Chain) (op : Op) (m : Mem) (h : PairOk s m)
+    (hc : SpliceOk s.1.triple s.2.triple op) (t : Triple) :
+    (DList.step P s op m).2.2.liveT t + owned s t = m.liveT t + owned (DList.step P s op m).2.1 t :=
+  (C04.dlist_step_refines P s op m h hc).2.2.2.2.2.2.1 t
 
-theorem slist_step_ledger (P : Params) (s : Chain × Chain) (op : Op) (m : Mem) (h : PairOk s m) :
-    (SList.step P s op m).2.2.live + (s.1.abs.length + s.2.abs.length) =
-      m.live + ((SList.step P s op m).2.1.1.abs.length + (SList.step P s op m).2.1.2.abs.length) :=
-  (C04.slist_step_refines P s op m h).2.2.2.2.2.1
+theorem slist_step_ledger (P : Params) (s : Chain × Chain) (op : Op) (m : Mem) (h : PairOk s m)
+    (hc : SpliceOk s.1.triple s.2.triple op) (t : Triple) :
+    (SList.step P s op m).2.2.liveT t + owned s t = m.liveT t + owned (SList.step P s op m).2.1 t :=
+  (C04.slist_step_refines P s op m h hc).2.2.2.2.2.2.1 t
 
 /-- … and so over whole histories, under any refusal schedule -/
-theorem dlist_history_ledger (P : Params) (ops : List Op) (s : Chain × Chain) (m : Mem) (h : PairOk s m) :
-    (DList.run P s ops m).2.2.live + (s.1.abs.length + s.2.abs.length) =
-      m.live + ((DList.run P s ops m).2.1.1.abs.length + (DList.run P s ops m).2.1.2.abs.length) := by
-  rw [dlist_run_eq]; exact run_ledger (C04.dlist_step_refines P) ops s m h
+theorem dlist_history_ledger (P : Params) (ops : List Op) (s : Chain × Chain) (m : Mem) (h : PairOk s m) (hc : Compat s ops)
+    (t : Triple) :
+    (DList.run P s ops m).2.2.liveT t + owned s t = m.liveT t + owned (DList.run P s ops m).2.1 t :=
+  C04.dlist_history_ledger P ops s m h hc t
 
-theorem slist_history_ledger (P : Params) (ops : List Op) (s : Chain × Chain) (m : Mem) (h : PairOk s m) :
-    (SList.run P s ops m).2.2.live + (s.1.abs.length + s.2.abs.length) =
-      m.live + ((SList.run P s ops m).2.1.1.abs.length + (SList.run P s ops m).2.1.2.abs.length) := by
-  rw [slist_run_eq]; exact run_ledger (C04.slist_step_refines P) ops s m h
+theorem slist_history_ledger (P : Params) (ops : List Op) (s : Chain × Chain) (m : Mem) (h : PairOk s m) (hc : Compat s ops)
+    (t : Triple) :
+    (SList.run P s ops m).2.2.liveT t + owned s t = m.liveT t + owned (SList.run P s ops m).2.1 t :=
+  C04.slist_history_ledger P ops s m h hc t
 
-/-- **`new … any history … destroy` releases everything** (doubly linked): two lists are constructed,
-any history runs under any refusal schedule, both lists are destroyed — `live` is back at its
-initial value and nothing faulted (no block released twice or never). -/
-theorem dlist_destroy_releases_all (P : Params) (ops : List Op) (m0 m1 m2 : Mem) (l0 l1 : Chain)
-    (h0 : DList.new m0 = (.ok, some l0, m1)) (h1 : DList.new m1 = (.ok, some l1, m2)) :
-    (DList.destroy (DList.run P (l0, l1) ops m2).2.1.2 (DList.destroy (DList.run P (l0, l1) ops m2).2.1.1 (DList.run P (l0, l1) ops m2).2.2)).live = m0.live ∧
-    (DList.destroy (DList.run P (l0, l1) ops m2).2.1.2 (DList.destroy (DList.run P (l0, l1) ops m2).2.1.1 (DList.run P (l0, l1) ops m2).2.2)).fault = m0.fault := by
-  rw [DList.new_eq] at h0 h1
-  have a0 : m0.alloc.1 = true := by by_cases c : m0.alloc.1 = true; exact c; simp [c] at h0
-  have a1 : m1.alloc.1 = true := by by_cases c : m1.alloc.1 = true; exact c; simp [c] at h1
-  simp only [a0, if_true, Prod.mk.injEq, Option.some.injEq, true_and] at h0
-  simp only [a1, if_true, Prod.mk.injEq, Option.some.injEq, true_and] at h1
-  obtain ⟨rfl, rfl⟩ := h0
-  obtain ⟨rfl, rfl⟩ := h1
-  have e0 := Mem.alloc_fst_true m0 a0
-  have e1 := Mem.alloc_fst_true m0.alloc.2 a1
-  have hp : PairOk (ofList [], ofList []) m0.alloc.2.alloc.2 := ⟨ofList_inv _, ofList_inv _, by simp⟩
-  have hl := dlist_history_ledger P ops _ _ hp
-  have hn := dlist_history_nofault P ops _ _ hp
-  simp only [ofList_abs, List.length_nil, Nat.add_zero] at hl
-  have d1 := C04.dlist_destroy_ledger _ hn.2.1 (DList.run P (ofList [], ofList []) ops m0.alloc.2.alloc.2).2.2 (by omega)
-  have d2 := C04.dlist_destroy_ledger _ hn.2.2.1
-    (DList.destroy (DList.run P (ofList [], ofList []) ops m0.alloc.2.alloc.2).2.1.1 (DList.run P (ofList [], ofList []) ops m0.alloc.2.alloc.2).2.2)
-    (by omega)
-  exact ⟨by omega, by rw [d2.2.1, d1.2.1, hn.1, e1.2.1, e0.2.1]⟩
+/-- destroying both lists of a pair whose ledger holds exactly their node blocks and headers on top
+of `base` brings every allocator back to `base`, without fault -/
+theorem dlist_destroy_pair (r : Chain × Chain) (hr1 : r.1.Inv) (hr2 : r.2.Inv) (m : Mem) (base : Triple → Nat)
+    (hm : ∀ t, m.liveT t = base t + owned r t + ((if r.1.triple = t then 1 else 0) + (if r.2.triple = t then 1 else 0))) :
+    (∀ t, (DList.destroy r.2 (DList.destroy r.1 m)).liveT t = base t) ∧ (DList.destroy r.2 (DList.destroy r.1 m)).fault = m.fault := by
+  have d1 := C04.dlist_destroy_ledger r.1 hr1 m (by have := hm r.1.triple; simp only [owned, ownedBy, if_true] at this; omega)
+  have k1 : ∀ t, (DList.destroy r.1 m).liveT t + (if r.1.triple = t then r.1.abs.length + 1 else 0) = m.liveT t := by
+    intro t
+    by_cases e : r.1.triple = t
+    · subst e; simp only [if_true]; exact d1.1
+    · simp only [e, if_false]; exact d1.2.2.1.liveT (fun x => e x.symm)
+  have d2 := C04.dlist_destroy_ledger r.2 hr2 (DList.destroy r.1 m) (by
+    have a := hm r.2.triple; have b := k1 r.2.triple
+    by_cases e : r.1.triple = r.2.triple <;> simp only [owned, ownedBy, e, if_true, if_false] at a b <;> omega)
+  refine ⟨fun t => ?_, by rw [d2.2.1, d1.2.1]⟩
+  have a := hm t; have b := k1 t
+  by_cases e2 : r.2.triple = t
+  · subst e2
+    have c := d2.1
+    by_cases e : r.1.triple = r.2.triple <;> simp only [owned, ownedBy, e, if_true, if_false] at a b <;> omega
+  · have c := d2.2.2.1.liveT (fun x => e2 x.symm)
+    by_cases e : r.1.triple = t <;> simp only [owned, ownedBy, e, e2, if_true, if_false] at a b <;> omega
+
+theorem slist_destroy_pair (r : Chain × Chain) (hr1 : r.1.Inv) (hr2 : r.2.Inv) (m : Mem) (base : Triple → Nat)
+    (hm : ∀ t, m.liveT t = base t + owned r t + ((if r.1.triple = t then 1 else 0) + (if r.2.triple = t then 1 else 0))) :
+    (∀ t, (SList.destroy r.2 (SList.destroy r.1 m)).liveT t = base t) ∧ (SList.destroy r.2 (SList.destroy r.1 m)).fault = m.fault := by
+  have d1 := C04.slist_destroy_ledger r.1 hr1 m (by have := hm r.1.triple; simp only [owned, ownedBy, if_true] at this; omega)
+  have k1 : ∀ t, (SList.destroy r.1 m).liveT t + (if r.1.triple = t then r.1.abs.length + 1 else 0) = m.liveT t := by
+    intro t
+    by_cases e : r.1.triple = t
+    · subst e; simp only [if_true]; exact d1.1
+    · simp only [e, if_false]; exact d1.2.2.1.liveT (fun x => e x.symm)
+  have d2 := C04.slist_destroy_ledger r.2 hr2 (SList.destroy r.1 m) (by
+    have a := hm r.2.triple; have b := k1 r.2.triple
+    by_cases e : r.1.triple = r.2.triple <;> simp only [owned, ownedBy, e, if_true, if_false] at a b <;> omega)
+  refine ⟨fun t => ?_, by rw [d2.2.1, d1.2.1]⟩
+  have a := hm t; have b := k1 t
+  by_cases e2 : r.2.triple = t
+  · subst e2
+    have c := d2.1
+    by_cases e : r.1.triple = r.2.triple <;> simp only [owned, ownedBy, e, if_true, if_false] at a b <;> omega
+  · have c := d2.2.2.1.liveT (fun x => e2 x.symm)
+    by_cases e : r.1.triple = t <;> simp only [owned, ownedBy, e, e2, if_true, if_false] at a b <;> omega
+
+/-- **`new … any history … destroy` releases everything, to the right allocator** (doubly linked): two
+lists are constructed on any two triples, any history runs under any refusal schedule, both lists
+are destroyed — every `liveT` (configured allocator and C library) is back at its initial value and
+nothing faulted (no block released twice, never, or through the wrong allocator as far as the
+per-triple counts can tell). -/
+theorem dlist_destroy_releases_all (P : Params) (t1 t2 : Triple) (ops : List Op) (m0 : Mem) (l0 l1 : Chain)
+    (h0 : (DList.new t1 m0).2.1 = some l0) (h1 : (DList.new t2 (DList.new t1 m0).2.2).2.1 = some l1)
+    (hc : t1 = t2 ∨ ∀ op, op ∈ ops → isSplice op = false) :
+    (∀ t, (DList.destroy (DList.run P (l0, l1) ops (DList.new t2 (DList.new t1 m0).2.2).2.2).2.1.2
+      (DList.destroy (DList.run P (l0, l1) ops (DList.new t2 (DList.new t1 m0).2.2).2.2).2.1.1
+        (DList.run P (l0, l1) ops (DList.new t2 (DList.new t1 m0).2.2).2.2).2.2)).liveT t = m0.liveT t) ∧
+    (DList.destroy (DList.run P (l0, l1) ops (DList.new t2 (DList.new t1 m0).2.2).2.2).2.1.2
+      (DList.destroy (DList.run P (l0, l1) ops (DList.new t2 (DList.new t1 m0).2.2).2.2).2.1.1
+        (DList.run P (l0, l1) ops (DList.new t2 (DList.new t1 m0).2.2).2.2).2.2)).fault = m0.fault := by
+  obtain ⟨e0, e1, hp, hf, _⟩ := C04.dlist_new_pairOk t1 t2 m0 l0 l1 h0 h1
+  have hcc : Compat (l0, l1) ops := by subst e0 e1; exact hc
+  have hn := dlist_history_nofault P ops (l0, l1) _ hp hcc
+  have hl := fun t => dlist_history_ledger P ops (l0, l1) _ hp hcc t
+  have htr : _ := run_triples (C04.dlist_step_refines P) ops (l0, l1) (DList.new t2 (DList.new t1 m0).2.2).2.2 hp hcc
+  rw [← dlist_run_eq] at htr
+  have hm2 : ∀ t, (DList.new t2 (DList.new t1 m0).2.2).2.2.liveT t =
+      m0.liveT t + ((if t1 = t then 1 else 0) + (if t2 = t then 1 else 0)) := by
+    intro t
+    simp only [DList.new_eq] at h0 h1 ⊢
+    by_cases a1 : (m0.allocT t1).1 = true
+    · simp only [a1, if_true] at h1 ⊢
+      by_cases a2 : ((m0.allocT t1).2.allocT t2).1 = true
+      · simp only [a2, if_true]
+        rw [(Mem.allocT_all_true _ t2 a2).2.2 t, (Mem.allocT_all_true m0 t1 a1).2.2 t]; omega
+      · simp [a2] at h1
+    · simp [a1] at h0
+  have := dlist_destroy_pair (DList.run P (l0, l1) ops (DList.new t2 (DList.new t1 m0).2.2).2.2).2.1 hn.2.1 hn.2.2.1
+    (DList.run P (l0, l1) ops (DList.new t2 (DList.new t1 m0).2.2).2.2).2.2 m0.liveT (by
+      intro t
+      have a := hl t; have b := hm2 t
+      have o0 : owned (l0, l1) t = 0 := by
+        subst e0 e1; simp only [owned, ownedBy, ofList_abs, List.length_nil]; by_cases x1 : t1 = t <;> by_cases x2 : t2 = t <;> simp [x1, x2]
+      have ht1 : (l0, l1).1.triple = t1 := by subst e0; rfl
+      have ht2 : (l0, l1).2.triple = t2 := by subst e1; rfl
+      rw [ht1, ht2] at htr
+      rcases htr with ⟨x, y⟩ | ⟨x, y⟩ <;> rw [x, y] <;> omega)
+  exact ⟨this.1, by rw [this.2, hn.1, hf]⟩
 
 /-- the same for the singly linked list -/
-theorem slist_destroy_releases_all (P : Params) (ops : List Op) (m0 m1 m2 : Mem) (l0 l1 : Chain)
-    (h0 : SList.new m0 = (.ok, some l0, m1)) (h1 : SList.new m1 = (.ok, some l1, m2)) :
-    (SList.destroy (SList.run P (l0, l1) ops m2).2.1.2 (SList.destroy (SList.run P (l0, l1) ops m2).2.1.1 (SList.run P (l0, l1) ops m2).2.2)).live = m0.live ∧
-    (SList.destroy (SList.run P (l0, l1) ops m2).2.1.2 (SList.destroy (SList.run P (l0, l1) ops m2).2.1.1 (SList.run P (l0, l1) ops m2).2.2)).fault = m0.fault := by
-  rw [SList.new_eq] at h0 h1
-  have a0 : m0.alloc.1 = true := by by_cases c : m0.alloc.1 = true; exact c; simp [c] at h0
-  have a1 : m1.alloc.1 = true := by by_cases c : m1.alloc.1 = true; exact c; simp [c] at h1
-  simp only [a0, if_true, Prod.mk.injEq, Option.some.injEq, true_and] at h0
-  simp only [a1, if_true, Prod.mk.injEq, Option.some.injEq, true_and] at h1
-  obtain ⟨rfl, rfl⟩ := h0
-  obtain ⟨rfl, rfl⟩ := h1
-  have e0 := Mem.alloc_fst_true m0 a0
-  have e1 := Mem.alloc_fst_true m0.alloc.2 a1
-  have hp : PairOk (ofList [], ofList []) m0.alloc.2.alloc.2 := ⟨ofList_inv _, ofList_inv _, by simp⟩
-  have hl := slist_history_ledger P ops _ _ hp
-  have hn := slist_history_nofault P ops _ _ hp
-  simp only [ofList_abs, List.length_nil, Nat.add_zero] at hl
-  have d1 := C04.slist_destroy_ledger _ hn.2.1 (SList.run P (ofList [], ofList []) ops m0.alloc.2.alloc.2).2.2 (by omega)
-  have d2 := C04.slist_destroy_ledger _ hn.2.2.1
-    (SList.destroy (SList.run P (ofList [], ofList []) ops m0.alloc.2.alloc.2).2.1.1 (SList.run P (ofList [], ofList []) ops m0.alloc.2.alloc.2).2.2)
-    (by omega)
-  exact ⟨by omega, by rw [d2.2.1, d1.2.1, hn.1, e1.2.1, e0.2.1]⟩
+theorem slist_destroy_releases_all (P : Params) (t1 t2 : Triple) (ops : List Op) (m0 : Mem) (l0 l1 : Chain)
+    (h0 : (SList.new t1 m0).2.1 = some l0) (h1 : (SList.new t2 (SList.new t1 m0).2.2).2.1 = some l1)
+    (hc : t1 = t2 ∨ ∀ op, op ∈ ops → isSplice op = false) :
+    (∀ t, (SList.destroy (SList.run P (l0, l1) ops (SList.new t2 (SList.new t1 m0).2.2).2.2).2.1.2
+      (SList.destroy (SList.run P (l0, l1) ops (SList.new t2 (SList.new t1 m0).2.2).2.2).2.1.1
+        (SList.run P (l0, l1) ops (SList.new t2 (SList.new t1 m0).2.2).2.2).2.2)).liveT t = m0.liveT t) ∧
+    (SList.destroy (SList.run P (l0, l1) ops (SList.new t2 (SList.new t1 m0).2.2).2.2).2.1.2
+      (SList.destroy (SList.run P (l0, l1) ops (SList.new t2 (SList.new t1 m0).2.2).2.2).2.1.1
+        (SList.run P (l0, l1) ops (SList.new t2 (SList.new t1 m0).2.2).2.2).2.2)).fault = m0.fault := by
+  obtain ⟨e0, e1, hp, hf, _⟩ := C04.slist_new_pairOk t1 t2 m0 l0 l1 h0 h1
+  have hcc : Compat (l0, l1) ops := by subst e0 e1; exact hc
+  have hn := slist_history_nofault P ops (l0, l1) _ hp hcc
+  have hl := fun t => slist_history_ledger P ops (l0, l1) _ hp hcc t
+  have htr : _ := run_triples (C04.slist_step_refines P) ops (l0, l1) (SList.new t2 (SList.new t1 m0).2.2).2.2 hp hcc
+  rw [← slist_run_eq] at htr
+  have hm2 : ∀ t, (SList.new t2 (SList.new t1 m0).2.2).2.2.liveT t =
+      m0.liveT t + ((if t1 = t then 1 else 0) + (if t2 = t then 1 else 0)) := by
+    intro t
+    simp only [SList.new_eq] at h0 h1 ⊢
+    by_cases a1 : (m0.allocT t1).1 = true
+    · simp only [a1, if_true] at h1 ⊢
+      by_cases a2 : ((m0.allocT t1).2.allocT t2).1 = true
+      · simp only [a2, if_true]
+        rw [(Mem.allocT_all_true _ t2 a2).2.2 t, (Mem.allocT_all_true m0 t1 a1).2.2 t]; omega
+      · simp [a2] at h1
+    · simp [a1] at h0
+  have := slist_destroy_pair (SList.run P (l0, l1) ops (SList.new t2 (SList.new t1 m0).2.2).2.2).2.1 hn.2.1 hn.2.2.1
+    (SList.run P (l0, l1) ops (SList.new t2 (SList.new t1 m0).2.2).2.2).2.2 m0.liveT (by
+      intro t
+      have a := hl t; have b := hm2 t
+      have o0 : owned (l0, l1) t = 0 := by
+        subst e0 e1; simp only [owned, ownedBy, ofList_abs, List.length_nil]; by_cases x1 : t1 = t <;> by_cases x2 : t2 = t <;> simp [x1, x2]
+      have ht1 : (l0, l1).1.triple = t1 := by subst e0; rfl
+      have ht2 : (l0, l1).2.triple = t2 := by subst e1; rfl
+      rw [ht1, ht2] at htr
+      rcases htr with ⟨x, y⟩ | ⟨x, y⟩ <;> rw [x, y] <;> omega)
+  exact ⟨this.1, by rw [this.2, hn.1, hf]⟩
 
 /-! ## (c) callbacks receive every held element exactly once, in list order -/
 
@@ -161,15 +286,22 @@ theorem destroy_cb_log (l : Chain) (h : l.Inv) (m : Mem) :
   rw [h.eq, DList.destroyCb_ofList, SList.destroyCb_ofList]; exact ⟨rfl, rfl⟩
 
 /-- `cc_list_remove_all_cb` / `cc_slist_remove_all_cb`: on a non-empty list the callback log is the
-content and the list is empty afterwards; on an empty list nothing is called and nothing changes -/
+content, the list is empty afterwards (on its triple) and every node went back through that triple;
+on an empty list nothing is called and nothing changes -/
 theorem remove_all_cb_log (l : Chain) (h : l.Inv) (m : Mem) :
-    (l.abs ≠ [] → DList.removeAll l m = (.ok, l.abs, ofList [], Mem.freeN l.abs.length m) ∧
-                  SList.removeAll l m = (.ok, l.abs, ofList [], Mem.freeN l.abs.length m)) ∧
+    (l.abs ≠ [] → DList.removeAll l m = (.ok, l.abs, ofList l.triple [], Mem.freeN l.triple l.abs.length m) ∧
+                  SList.removeAll l m = (.ok, l.abs, ofList l.triple [], Mem.freeN l.triple l.abs.length m)) ∧
     (l.abs = [] → DList.removeAll l m = (.errValueNotFound, [], l, m) ∧ SList.removeAll l m = (.errValueNotFound, [], l, m)) := by
   rw [h.eq, DList.removeAll_ofList, SList.removeAll_ofList]
-  simp only [ofList_abs, LSeq.removeAll]
+  simp only [ofList_abs, ofList_triple, LSeq.removeAll]
   constructor
   · intro hne; simp [hne]
   · intro he; simp [he, Mem.freeN]
+
+/-! ## Non-vacuity: a mixed pair — the first list on the configured allocator, the second on the C library -/
+example : PairOk (ofList .conf [1, 2], ofList .libc [3]) { live := 2, liveLibc := 1 } ∧
+    (DList.run ⟨LSeq.predEven, LSeq.cmpNum⟩ (ofList .conf [1, 2], ofList .libc [3]) [.addAll, .swapRoles, .addLast 9, .removeAll]
+      { live := 2, liveLibc := 1 }).2.2.fault = false := by
+  refine ⟨⟨ofList_inv _, ofList_inv _, fun t => by cases t <;> decide⟩, by decide⟩
 
 end CC.Properties.C06List
